@@ -124,6 +124,18 @@ func (t Thing) ShallowCopy() *Thing {
 }
 
 func (t *Thing) useConf() int { return t.conf }
+
+// LANE control: lane 2 reads x[3]
+func laneBad(x, y, z *[8]uint64, q uint64) {
+	z[0] = x[0] + y[0] + q
+	z[1] = x[1] + y[1] + q
+	z[2] = x[3] + y[2] + q
+	z[3] = x[3] + y[3] + q
+	z[4] = x[4] + y[4] + q
+	z[5] = x[5] + y[5] + q
+	z[6] = x[6] + y[6] + q
+	z[7] = x[7] + y[7] + q
+}
 `
 
 // control runs scan over the fixture and demands a violation whose key contains each of the wanted substrings.
